@@ -151,6 +151,7 @@ inductive Ev
   | skip (k : Int)
   | dup (k : Int)
   | a                                                   -- a callback starts its next action
+  | hstop                                               -- the harness calls `tickit_stop` from inside the wait of a `run`
 deriving DecidableEq, Repr, Inhabited
 
 /-- Actions of a callback (and the top-level operations that do the same thing). -/
@@ -165,6 +166,7 @@ inductive Act
   | errno (v : Int)
   | raise (sig : Int)
   | exit (pid status : Int)
+  | stop                                                -- tickit_stop
   | nop
 deriving DecidableEq, Repr, Inhabited
 
@@ -188,14 +190,18 @@ structure Config where
   reventsCleared : Bool
   /-- `invoke_watch` reads `watch->type` and `watch->t` before it calls the callback. -/
   invokeTypeSaved : Bool
+  /-- `tickit_evloop_invoke_sigwatches` walks a snapshot of `t->signals` and skips entries no longer linked. -/
+  sigSnapshot : Bool
+  /-- `on_sigchld` walks a snapshot of `t->processes` and skips entries no longer linked. -/
+  procSnapshot : Bool
 deriving DecidableEq, Repr, Inhabited
 
 def Config.shipped : Config :=
   { ioFlagMask := 2, timersPop := false, errnoSaved := false, pendingInit := false, reventsCleared := false,
-    invokeTypeSaved := false }
+    invokeTypeSaved := false, sigSnapshot := false, procSnapshot := false }
 def Config.repaired : Config :=
   { ioFlagMask := 6, timersPop := true, errnoSaved := true, pendingInit := true, reventsCleared := true,
-    invokeTypeSaved := true }
+    invokeTypeSaved := true, sigSnapshot := true, procSnapshot := true }
 
 /-- One entry of `pollfds[]`/`pollwatches[]`.  `revents = none`: never written (uninitialised). -/
 structure PollSlot where
@@ -240,6 +246,11 @@ structure St where
   blocked : List Int := []
   handled : List Int := []
   kpending : List Int := []
+  /-- `EventLoopData.still_running` -/
+  stillRunning : Bool := false
+  /-- the harness is inside `tickit_run`, and how often its `ppoll` has been called there -/
+  inRun : Bool := false
+  runPolls : Nat := 0
   errno : Int := 0
   clockUs : Int := 1000000000
   ready : List (Int × Nat) := []
@@ -552,6 +563,7 @@ def runAct (st : St) (act : Act) : St :=
       if st.children.any (·.pid = pid) then st      -- a child exits once
       else { st with children := st.children ++ [{ pid := pid, exited := true, reaped := false, status := status }] }
     else st
+  | .stop => { st with stillRunning := false }
   | .nop => st
 
 /-- `(*watch->fn)(t, flags, info, user)` with `FIRE` set, for the harness's callback of slot `k`. -/
@@ -617,6 +629,23 @@ def onSigchld (fuel : Nat) (st : St) (this : Option Nat) : St :=
     | some a =>
       if !st.live a then st.fail .procLoopThis
       else onSigchld fuel (procStep st a) (succOf a st.procs)
+
+/-- The repaired `on_sigchld`: a snapshot of `t->processes` is walked; an entry is used only if
+    `watch_is_linked` still finds it (pointer comparisons; the walk reads `->next` of the nodes before it). -/
+def procSnapLoop (st : St) : List Nat → St
+  | [] => st
+  | a :: rest =>
+    if !st.isOk then st
+    else if !st.allLive (st.procs.takeWhile (· ≠ a)) then st.fail .procLoopThis
+    else if !st.procs.contains a then procSnapLoop st rest
+    else if !st.live a then st.fail .procLoopThis
+    else procSnapLoop (procStep st a) rest
+
+/-- `on_sigchld` in the variant the source has. -/
+def onSigchldAny (fuel : Nat) (st : St) : St :=
+  if st.cfg.procSnapshot then
+    (if !st.allLive st.procs then st.fail .procLoopThis else procSnapLoop st st.procs)
+  else onSigchld fuel st st.procs.head?
 
 /-- `process_notify` (lines 655–662), the callback of the internal `later` of a pre-exited child. -/
 def processNotify (st : St) (later : Nat) : St :=
@@ -739,7 +768,8 @@ def invokeTimers (fuel : Nat) (st : St) : St :=
 def sigCb (fuel : Nat) (st : St) (a : Nat) (signum : Int) : St :=
   if (st.getW a).signum = signum then
     if (st.getW a).slot ≥ 0 then fireUser st (st.getW a).slot EV_FIRE .none
-    else if (st.getW a).slot = -3 then onSigchld fuel st st.procs.head?
+    else if (st.getW a).slot = -3 then onSigchldAny fuel st
+    else if (st.getW a).slot = -5 then { st with stillRunning := false }    -- on_sigint: tickit_stop
     else st     -- on_sigwinch: the headless terminal has no output descriptor
   else st
 
@@ -763,12 +793,30 @@ def sigwatchLoopT (fuel : Nat) (st : St) (signum : Int) (this : Option Nat) : St
 def sigwatchLoop (fuel : Nat) (st : St) (signum : Int) (this : Option Nat) : St :=
   (sigwatchLoopT fuel st signum this).1
 
+/-- The repaired `tickit_evloop_invoke_sigwatches`: a snapshot of `t->signals` is walked; an entry is used
+    only if `watch_is_linked` still finds it.  Returns the state and the watches visited, in order. -/
+def sigSnapLoopT (fuel : Nat) (st : St) (signum : Int) : List Nat → St × List Nat
+  | [] => (st, [])
+  | a :: rest =>
+    if !st.isOk then (st, [])
+    else if !st.allLive (st.signals.takeWhile (· ≠ a)) then (st.fail .sigLoopThis, [])
+    else if !st.signals.contains a then sigSnapLoopT fuel st signum rest
+    else if !st.live a then (st.fail .sigLoopThis, [])
+    else ((sigSnapLoopT fuel (sigCb fuel st a signum) signum rest).1,
+          a :: (sigSnapLoopT fuel (sigCb fuel st a signum) signum rest).2)
+
+/-- `tickit_evloop_invoke_sigwatches` in the variant the source has. -/
+def sigDispatch (fuel : Nat) (st : St) (signum : Int) : St :=
+  if st.cfg.sigSnapshot then
+    (if !st.allLive st.signals then st.fail .sigLoopThis else (sigSnapLoopT fuel st signum st.signals).1)
+  else sigwatchLoop fuel st signum st.signals.head?
+
 /-- The `for(signum = 1; signum < NSIG; signum++)` loop of `dispatch_signals`. -/
 def dispatchLoop (fuel : Nat) (st : St) (pending : List Int) : List Int → St
   | [] => st
   | s :: rest =>
     dispatchLoop fuel
-      (if st.isOk && pending.contains s && st.watched.contains s then sigwatchLoop fuel st s st.signals.head? else st)
+      (if st.isOk && pending.contains s && st.watched.contains s then sigDispatch fuel st s else st)
       pending rest
 
 def signalRange : List Int := (List.range NSIG).tail.map Int.ofNat
@@ -837,16 +885,23 @@ def ioCb (st : St) (s : PollSlot) : St :=
     else invokeWatch st a EV_FIRE (.io (st.getW a).fd (condOfRevents (slotRevents s)))
   | none => st
 
-/-- The descriptor loop of `evloop_run` (lines 162–184); `nfds` is re-read on every iteration. -/
-def ioLoop (fuel : Nat) (st : St) (idx : Nat) : St :=
+/-- The descriptor loop of `evloop_run` (lines 162–184); `nfds` is re-read on every iteration.  Returns the
+    state and, for every `tickit_evloop_invoke_iowatch` it made, (index, watch, conditions) — read only by the
+    theorems of C18. -/
+def ioLoopT (fuel : Nat) (st : St) (idx : Nat) : St × List (Nat × Option Nat × Nat) :=
   match fuel with
-  | 0 => if st.isOk then { st with status := .outOfFuel } else st
+  | 0 => (if st.isOk then { st with status := .outOfFuel } else st, [])
   | fuel + 1 =>
-    if !st.isOk then st
-    else if idx ≥ st.pfd.length then st
-    else if (st.pfd.getD idx default).fd = -1 then ioLoop fuel st (idx + 1)
-    else if slotRevents (st.pfd.getD idx default) = 0 then ioLoop fuel st (idx + 1)
-    else ioLoop fuel (ioCb st (st.pfd.getD idx default)) (idx + 1)
+    if !st.isOk then (st, [])
+    else if idx ≥ st.pfd.length then (st, [])
+    else if (st.pfd.getD idx default).fd = -1 then ioLoopT fuel st (idx + 1)
+    else if slotRevents (st.pfd.getD idx default) = 0 then ioLoopT fuel st (idx + 1)
+    else
+      ((ioLoopT fuel (ioCb st (st.pfd.getD idx default)) (idx + 1)).1,
+       (idx, (st.pfd.getD idx default).watch, condOfRevents (slotRevents (st.pfd.getD idx default))) ::
+         (ioLoopT fuel (ioCb st (st.pfd.getD idx default)) (idx + 1)).2)
+
+def ioLoop (fuel : Nat) (st : St) (idx : Nat) : St := (ioLoopT fuel st idx).1
 
 /-- `errno` as `evloop_run` looks at it when `ppoll` returned -1: `afterPoll` is the state right after
     the wait, `st` the state after `tickit_evloop_invoke_timers`. -/
@@ -873,6 +928,48 @@ def tick (fuel : Nat) (st : St) (nohang : Bool) : St :=
     (ppoll (nextTimerMsec st).1 (tickTimeout nohang (nextTimerMsec st).2)).1
   else tickAfterPoll fuel (ppoll (nextTimerMsec st).1 (tickTimeout nohang (nextTimerMsec st).2)).1
          (ppoll (nextTimerMsec st).1 (tickTimeout nohang (nextTimerMsec st).2)).2
+
+/-! ### tickit_run -/
+
+/-- How many waits the harness lets one `tickit_run` make before it stops the loop itself. -/
+def maxRunPolls : Nat := 50
+
+/-- Inside `tickit_run` the harness's `ppoll` counts its calls and calls `tickit_stop` itself when the loop
+    would block for ever (no timeout, nothing ready, no signal) or has made `maxRunPolls` waits. -/
+def ppollRun (st : St) (timeoutMs : Option Int) : St × Option Nat :=
+  if !(ppoll st timeoutMs).1.isOk then ppoll st timeoutMs
+  else if (ppoll st timeoutMs).1.runPolls + 1 ≥ maxRunPolls || (timeoutMs = none && (ppoll st timeoutMs).2 = some 0) then
+    (({ (ppoll st timeoutMs).1 with runPolls := (ppoll st timeoutMs).1.runPolls + 1, stillRunning := false }).emit .hstop,
+     (ppoll st timeoutMs).2)
+  else ({ (ppoll st timeoutMs).1 with runPolls := (ppoll st timeoutMs).1.runPolls + 1 }, (ppoll st timeoutMs).2)
+
+/-- One iteration of the `while(evdata->still_running)` loop of `evloop_run` under `tickit_run`. -/
+def runIter (fuel : Nat) (st : St) : St :=
+  if !st.isOk then st
+  else if !(nextTimerMsec st).1.isOk then (nextTimerMsec st).1
+  else if !(ppollRun (nextTimerMsec st).1 (tickTimeout false (nextTimerMsec st).2)).1.isOk then
+    (ppollRun (nextTimerMsec st).1 (tickTimeout false (nextTimerMsec st).2)).1
+  else tickAfterPoll fuel (ppollRun (nextTimerMsec st).1 (tickTimeout false (nextTimerMsec st).2)).1
+         (ppollRun (nextTimerMsec st).1 (tickTimeout false (nextTimerMsec st).2)).2
+
+def runLoop (fuel : Nat) : Nat → St → St
+  | 0, st => if st.isOk then { st with status := .outOfFuel } else st
+  | n + 1, st =>
+    if !st.isOk then st
+    else if !st.stillRunning then st
+    else runLoop fuel n (runIter fuel st)
+
+/-- `tickit_run` (the terminal has been set up when the instance was built): watch SIGINT with
+    `on_sigint` (= `tickit_stop`), loop until stopped, cancel that watch. -/
+def run (fuel : Nat) (st : St) : St :=
+  if !st.isOk then st
+  else if !(runLoop fuel (maxRunPolls + 2)
+        { (watchSignal st 2 0 (-5)).1 with stillRunning := true, inRun := true, runPolls := 0 }).isOk then
+    runLoop fuel (maxRunPolls + 2) { (watchSignal st 2 0 (-5)).1 with stillRunning := true, inRun := true, runPolls := 0 }
+  else
+    watchCancel { (runLoop fuel (maxRunPolls + 2)
+        { (watchSignal st 2 0 (-5)).1 with stillRunning := true, inRun := true, runPolls := 0 }) with inRun := false }
+      (watchSignal st 2 0 (-5)).2
 
 /-! ### tickit.c: construction and destruction -/
 
@@ -934,6 +1031,7 @@ inductive Op
   | inpoll (sig : Int)
   | tick
   | tickhang
+  | run
   | destroy
   | finish
   | bad
@@ -958,8 +1056,9 @@ def applyOp' (st : St) (op : Op) : St :=
     | .clock us => { st with clockUs := st.clockUs + us }
     | .ready fd bits => { st with ready := (fd, bits) :: st.ready.filter (·.1 ≠ fd) }
     | .inpoll s => { st with inpoll := st.inpoll ++ [s] }
-    | .tick => tick defaultFuel st true
-    | .tickhang => tick defaultFuel st false
+    | .tick => tick defaultFuel { st with stillRunning := true } true
+    | .tickhang => tick defaultFuel { st with stillRunning := true } false
+    | .run => run defaultFuel st
     | .destroy => destroy st
     | _ => st
 
